@@ -37,13 +37,14 @@ VARIABLES
   pend,     \* options with pending changes, in first-change order       (TorConfig.unsaved)
   pval,     \* their pending values
   shared,   \* the pending value is the very object reads return (in-place edit) rather than an assigned one
-  inflight, \* pairs of the SETCONF awaiting Tor's reply (<<>> when none)
-  busy,     \* a save is awaiting its reply
+  inflight, \* the saves awaiting Tor's reply, oldest first: [pairs |-> the SETCONF's pairs, sent |-> <<option, pending value>>
+            \* for every option the save carried]; only the oldest one is on the wire (one command at a time)
+  busy,     \* some save is awaiting its reply
   wire,     \* SETCONF commands written in this step: a sequence of pair-sequences
   \* ghost: what the user means
   intent,   \* option -> the configuration the user has asked for
   dirty,    \* options changed since the last acknowledged save
-  after,    \* options changed since the pending save was sent
+  after,    \* (unused; kept so that recorded replay files keep their shape)
   devUsed,  \* deviations that made this behaviour differ from the ideal one
   evq,      \* Tor's change announcements (CONF_CHANGED events) not yet delivered to us, in the order Tor applied
             \* the changes - other controllers' and our own SETCONFs alike; one event = a sequence of
@@ -84,7 +85,7 @@ Attach(store) ==
 
 Touch(o) ==
   /\ dirty' = AppendNew(dirty, o)
-  /\ after' = IF busy THEN after \cup {o} ELSE after
+  /\ after' = after
   /\ cnt' = [cnt EXCEPT !.ops = @ + 1]
 
 \* config.Option = value   (value: a scalar's validated value, or a whole new list)
@@ -128,16 +129,23 @@ PairsFor(o, v, ideal) ==
 RECURSIVE PairsAll(_, _, _)
 PairsAll(ps, vals, ideal) == IF ps = <<>> THEN <<>> ELSE PairsFor(Head(ps), vals[Head(ps)], ideal) \o PairsAll(Tail(ps), vals, ideal)
 
+\* save().  The specification of the ideal mechanism covers one save at a time; with the as-is mechanism a
+\* second save() may be made while an earlier one awaits its reply (its SETCONF - naming everything that is
+\* pending then, the earlier save's options included - is queued behind it).
 SaveSend ==
-  /\ phase = "attached" /\ ~busy
+  /\ phase = "attached" /\ (~busy \/ "c10_edits_during_save_lost" \in Dev)
   /\ IF pend = <<>>
      THEN wire' = <<>> /\ UNCHANGED <<view, inflight, busy, after, devUsed>>
      ELSE LET asis  == PairsAll(pend, pval, "c10_emptied_list_not_cleared" \notin Dev)
               ideal == PairsAll(pend, pval, TRUE)
-          IN /\ wire' = << asis >>
-             /\ inflight' = asis /\ busy' = TRUE /\ after' = {}
+          IN /\ wire' = IF inflight = <<>> THEN << asis >> ELSE <<>>
+             /\ inflight' = Append(inflight, [pairs |-> asis, sent |-> [i \in 1..Len(pend) |-> <<pend[i], pval[pend[i]]>>]])
+             /\ busy' = TRUE /\ after' = after
              /\ view' = [o \in Options |-> IF o \in SeqToSet(pend) THEN pval[o] ELSE view[o]]
-             /\ devUsed' = IF asis # ideal THEN devUsed \cup {"c10_emptied_list_not_cleared"} ELSE devUsed
+             \* a save made while another one is in flight is outside the ideal mechanism's specification: from
+             \* there on the behaviour is the as-is mechanism's (conformance is still checked step by step)
+             /\ devUsed' = devUsed \cup (IF asis # ideal THEN {"c10_emptied_list_not_cleared"} ELSE {})
+                                    \cup (IF busy THEN {"c10_edits_during_save_lost"} ELSE {})
   /\ cnt' = [cnt EXCEPT !.saves = @ + 1]
   /\ UNCHANGED <<phase, tor, tracked, pend, pval, shared, intent, dirty, evq>>
 
@@ -146,32 +154,41 @@ ValuesFor(ps, o) == LET f == SelectSeq(ps, LAMBDA p : p[1] = o) IN
                     IF Len(f) = 1 /\ f[1][2] = "" THEN <<>> ELSE [i \in 1..Len(f) |-> f[i][2]]
 Named(ps) == {ps[i][1] : i \in 1..Len(ps)}
 \* ... and announces every option whose value changed, to every controller, us included (the echo)
-RECURSIVE Echo(_, _)
-Echo(ps, seen) == IF ps = <<>> THEN <<>>
-                  ELSE LET o == Head(ps)[1] IN
-                       IF o \in seen \/ ValuesFor(inflight, o) = tor[o] THEN Echo(Tail(ps), seen \cup {o})
-                       ELSE << <<o, ValuesFor(inflight, o)>> >> \o Echo(Tail(ps), seen \cup {o})
+RECURSIVE Echo(_, _, _)
+Echo(all, ps, seen) == IF ps = <<>> THEN <<>>
+                       ELSE LET o == Head(ps)[1] IN
+                            IF o \in seen \/ ValuesFor(all, o) = tor[o] THEN Echo(all, Tail(ps), seen \cup {o})
+                            ELSE << <<o, ValuesFor(all, o)>> >> \o Echo(all, Tail(ps), seen \cup {o})
+\* option o with its present pending value is taken care of once the oldest save is acknowledged: that save
+\* carried this value, and no later save in flight carries another one
+Settled(o) ==
+  /\ \E i \in 1..Len(Head(inflight).sent) : Head(inflight).sent[i] = <<o, pval[o]>>
+  /\ \A k \in 2..Len(inflight) : \A i \in 1..Len(inflight[k].sent) :
+        inflight[k].sent[i][1] = o => inflight[k].sent[i][2] = pval[o]
+NextWire == IF Len(inflight) > 1 THEN << inflight[2].pairs >> ELSE <<>>
 SaveAck ==
   /\ busy
-  /\ tor' = [o \in Options |-> IF o \in Named(inflight) THEN ValuesFor(inflight, o) ELSE tor[o]]
-  /\ evq' = IF Echo(inflight, {}) = <<>> THEN evq ELSE Append(evq, Echo(inflight, {}))
-  /\ LET keep == IF "c10_edits_during_save_lost" \in Dev THEN <<>> ELSE SelectSeq(pend, LAMBDA o : o \in after)
-         idealkeep == SelectSeq(pend, LAMBDA o : o \in after)
+  /\ LET h == Head(inflight).pairs IN
+       /\ tor' = [o \in Options |-> IF o \in Named(h) THEN ValuesFor(h, o) ELSE tor[o]]
+       /\ evq' = IF Echo(h, h, {}) = <<>> THEN evq ELSE Append(evq, Echo(h, h, {}))
+  /\ LET idealkeep == SelectSeq(pend, LAMBDA o : ~Settled(o))
+         keep == IF "c10_edits_during_save_lost" \in Dev THEN <<>> ELSE idealkeep
      IN /\ pend' = keep
         /\ devUsed' = IF keep # idealkeep THEN devUsed \cup {"c10_edits_during_save_lost"} ELSE devUsed
-  /\ dirty' = SelectSeq(dirty, LAMBDA o : o \in after)
-  /\ inflight' = <<>> /\ busy' = FALSE /\ after' = {} /\ wire' = <<>>
-  /\ UNCHANGED <<phase, view, tracked, pval, shared, intent, cnt>>
+  /\ dirty' = SelectSeq(dirty, LAMBDA o : ~Settled(o))
+  /\ inflight' = Tail(inflight) /\ busy' = (Len(inflight) > 1) /\ wire' = NextWire
+  /\ UNCHANGED <<phase, view, tracked, pval, shared, intent, after, cnt>>
 
 SaveReject ==
   /\ busy
-  /\ inflight' = <<>> /\ busy' = FALSE /\ after' = {} /\ wire' = <<>>
-  /\ UNCHANGED <<phase, tor, view, tracked, pend, pval, shared, intent, dirty, devUsed, evq, cnt>>
+  /\ inflight' = Tail(inflight) /\ busy' = (Len(inflight) > 1) /\ wire' = NextWire
+  /\ UNCHANGED <<phase, tor, view, tracked, pend, pval, shared, intent, dirty, after, devUsed, evq, cnt>>
 
 \* another controller's SETCONF changes one or more options: Tor applies it and queues one announcement
 \* chs: sequence of <<option, values>> over distinct options, each a real change
 OkVals(o, vals) == IF o \in Scalars THEN Len(vals) <= 1 /\ SeqToSet(vals) \subseteq SVals
                    ELSE SeqToSet(vals) \subseteq Elems /\ Len(vals) <= MaxLen
+InFlight(o) == \E k \in 1..Len(inflight) : o \in Named(inflight[k].pairs)
 OtherChange(chs) ==
   /\ phase = "attached" /\ Len(chs) >= 1
   /\ \A i \in 1..Len(chs) : chs[i][1] \in Options /\ OkVals(chs[i][1], chs[i][2]) /\ chs[i][2] # tor[chs[i][1]]
@@ -180,7 +197,7 @@ OtherChange(chs) ==
          named == {chs[i][1] : i \in 1..Len(chs)}
      IN /\ tor' = [o \in Options |-> IF o \in named THEN chs[new(o)][2] ELSE tor[o]]
         \* a local change that the user has not saved (or whose save is in flight) still stands
-        /\ intent' = [o \in Options |-> IF o \in named /\ o \notin SeqToSet(dirty)
+        /\ intent' = [o \in Options |-> IF o \in named /\ o \notin SeqToSet(dirty) /\ ~InFlight(o)
                                          THEN (IF chs[new(o)][2] = <<>> THEN Def(o) ELSE chs[new(o)][2]) ELSE intent[o]]
   /\ evq' = Append(evq, chs)
   /\ cnt' = [cnt EXCEPT !.evs = @ + 1] /\ wire' = <<>>
